@@ -427,3 +427,9 @@ Qed.
 (* the table covers exactly the handlers of the validation table *)
 Lemma pre_validation_covers_handlers : map fst pre_validation_calls = map fst handlers.
 Proof. vm_compute. reflexivity. Qed.
+
+(* a request without any header message carries cluster id 0 (nil-safe getter): refused like any other foreign id,
+   as long as the cluster id itself is not 0 (initOrGetClusterID draws (unix seconds << 32) + random) *)
+Lemma headerless_refused_pf s t p s' :
+  scid s <> 0%Z -> step s (LBegin t (hid_of None) p) = Some s' -> s' = s.
+Proof. intros Hc. apply refused_at_begin_pf. left. cbn. congruence. Qed.
